@@ -527,6 +527,42 @@ func checkC18(c *Ctx) {
 		}
 	}
 	parseLevel := c.switchStrings(plFn)
+	// a level parser that delegates to zerolog.ParseLevel handles zerolog's own names; by that
+	// function's contract the empty string is not an error but NoLevel, which is above Fatal: a logger
+	// at NoLevel discards everything — an omitted logging.level must not reach it
+	if plFn == nil {
+		for _, fn := range p.Funcs {
+			if pk := fnPkg(fn); pk != nil && strings.HasSuffix(pk.Pkg.Path(), "/internal/logging") && fn.Parent() == nil {
+				for _, ci := range callsIn(fn) {
+					if CalleeName(ci) == "github.com/rs/zerolog.ParseLevel" {
+						plFn = fn
+					}
+				}
+			}
+		}
+	}
+	if plFn != nil {
+		var lib ssa.CallInstruction
+		for _, ci := range callsIn(plFn) {
+			if CalleeName(ci) == "github.com/rs/zerolog.ParseLevel" {
+				lib = ci
+			}
+		}
+		if lib != nil {
+			parseLevel = append(parseLevel, "trace", "debug", "info", "warn", "error", "fatal", "panic", "disabled")
+			emptyTested := false
+			instrsOf(plFn, func(in ssa.Instruction) {
+				if ifi, ok := in.(*ssa.If); ok {
+					d := p.Desc(ifi.Cond, nil)
+					if strings.Contains(d, `k:""`) || strings.Contains(d, "len(") {
+						emptyTested = true
+					}
+				}
+			})
+			c.Check(emptyTested, "enum-agreement", "log-levels/empty", p.InstrPos(lib), "the empty level is handled before zerolog.ParseLevel is consulted",
+				"the configured level goes to zerolog.ParseLevel without a test for the empty string: validation accepts an omitted logging.level (documented default: info), ParseLevel(\"\") returns NoLevel without an error, and a logger at NoLevel discards every message including the Fatal that reports a failed start-up")
+		}
+	}
 	var unhandled []string
 	for _, l := range levels {
 		if l != "info" && !contains(parseLevel, l) {
